@@ -39,7 +39,7 @@ type fnCase struct {
 	F       []string `json:"F"`
 	Custom  bool     `json:"custom"`
 	NilRecv bool     `json:"nilrecv"`
-	Sret    string   `json:"sret"`           // what the stubs return: "val" (value, nil error) or "err" (value and error)
+	Sret    string   `json:"sret"`           // what the stubs return: "val" (value, nil error), "err" (value and error), "zero" (zero values, nil error, nil iterator), "zeroerr" (zero values and an error)
 	ArgSeed int64    `json:"argseed,string"` // seed of the argument and result values
 	Av      []string `json:"av"`             // abstract argument values per parameter after the context (TLC: ArgProfiles), empty: generated
 	Cx      string   `json:"cx"`             // kind of context passed: live (default), cancelled, expired, nil
@@ -392,7 +392,7 @@ type fnRun struct {
 
 // fnProgram makes the results the stub of `field` returns (the same values at every call).
 // A Seq result is a real iterator over programmed pairs; the pairs are returned rendered too.
-func fnProgram(ft reflect.Type, field, sret string, rnd *rand.Rand) (outs []reflect.Value, vals []string, errRec ev, yields []ev) {
+func fnProgram(ft reflect.Type, field, sret string, rnd *rand.Rand) (outs []reflect.Value, vals []string, errRec ev, yields []ev, seqnil bool) {
 	vals = []string{}
 	yields = []ev{}
 	errRec = fnErrRec(nil)
@@ -400,7 +400,7 @@ func fnProgram(ft reflect.Type, field, sret string, rnd *rand.Rand) (outs []refl
 		ot := ft.Out(i)
 		switch {
 		case ot == fnErrorType:
-			if sret == "err" {
+			if sret == "err" || sret == "zeroerr" {
 				e := &fnErr{tag: fmt.Sprintf("stub#%s-%d", field, rnd.Int63())}
 				outs = append(outs, reflect.ValueOf(e).Convert(ot))
 				errRec = fnErrRec(e)
@@ -408,9 +408,18 @@ func fnProgram(ft reflect.Type, field, sret string, rnd *rand.Rand) (outs []refl
 				outs = append(outs, reflect.Zero(ot))
 			}
 		case fnIsSeq(ot):
+			if sret == "zero" {
+				// the nil iterator: the delegate's result all the same
+				outs = append(outs, reflect.Zero(ot))
+				seqnil = true
+				continue
+			}
 			yt := ot.In(0)
 			var pairs [][]reflect.Value
-			if sret == "err" {
+			if sret == "zeroerr" {
+				e := &fnErr{tag: fmt.Sprintf("stubseq#%s-%d", field, rnd.Int63())}
+				pairs = append(pairs, []reflect.Value{reflect.Zero(yt.In(0)), reflect.ValueOf(e).Convert(fnErrorType)})
+			} else if sret == "err" {
 				pairs = append(pairs, []reflect.Value{fnGen(yt.In(0), rnd, field+"-item0"), reflect.Zero(fnErrorType)})
 				e := &fnErr{tag: fmt.Sprintf("stubseq#%s-%d", field, rnd.Int63())}
 				pairs = append(pairs, []reflect.Value{reflect.Zero(yt.In(0)), reflect.ValueOf(e).Convert(fnErrorType)})
@@ -433,6 +442,9 @@ func fnProgram(ft reflect.Type, field, sret string, rnd *rand.Rand) (outs []refl
 			outs = append(outs, seq)
 		default:
 			v := fnGen(ot, rnd, field+"-result")
+			if sret == "zero" || sret == "zeroerr" {
+				v = reflect.Zero(ot)
+			}
 			outs = append(outs, v)
 			vals = append(vals, fnRender(v))
 		}
@@ -467,7 +479,7 @@ func fnExec(c fnCase, fields []string) ev {
 	rnd := rand.New(rand.NewSource(c.ArgSeed))
 	// the table
 	var tbl *ociregistry.Funcs
-	prog := ev{"vals": []string{}, "err": fnErrRec(nil), "yields": []ev{}}
+	prog := ev{"vals": []string{}, "err": fnErrRec(nil), "yields": []ev{}, "seqnil": false}
 	if !c.NilRecv {
 		tbl = &ociregistry.Funcs{}
 		tv := reflect.ValueOf(tbl).Elem()
@@ -481,9 +493,9 @@ func fnExec(c fnCase, fields []string) ev {
 				continue
 			}
 			fv := tv.FieldByName(field + "_")
-			outs, vals, er, ys := fnProgram(fv.Type(), field, c.Sret, frnd)
+			outs, vals, er, ys, sn := fnProgram(fv.Type(), field, c.Sret, frnd)
 			if field == c.M {
-				prog = ev{"vals": vals, "err": er, "yields": ys}
+				prog = ev{"vals": vals, "err": er, "yields": ys, "seqnil": sn}
 			}
 			name := field
 			fv.Set(reflect.MakeFunc(fv.Type(), func(args []reflect.Value) []reflect.Value {
@@ -555,6 +567,7 @@ func fnExec(c fnCase, fields []string) ev {
 	errRec := fnErrRec(nil)
 	yields, yields1 := []ev{}, []ev{}
 	iter := false
+	seqnil := false
 	var errv error
 	pan := func() (p any) {
 		defer func() { p = recover() }()
@@ -566,6 +579,10 @@ func fnExec(c fnCase, fields []string) ev {
 				errRec = fnErrRec(errv)
 			case fnIsSeq(o.Type()):
 				iter = true
+				if o.IsNil() {
+					seqnil = true // a nil iterator is recorded, not ranged over
+					continue
+				}
 				yields = fnDrive(o, true, 5)
 				yields1 = fnDrive(o, false, 5)
 			default:
@@ -590,6 +607,7 @@ func fnExec(c fnCase, fields []string) ev {
 	e["got"] = got
 	e["err"] = errRec
 	e["iter"] = iter
+	e["seqnil"] = seqnil
 	e["yields"] = yields
 	e["yields1"] = yields1
 	class := "nil"
@@ -681,7 +699,7 @@ func fnCmd(args []string) error {
 	}
 	rnd := rand.New(rand.NewSource(*seed))
 	for i := 0; i < *n; i++ {
-		c := fnCase{ID: 1000000 + i, M: methods[rnd.Intn(len(methods))], F: []string{}, Sret: []string{"val", "err"}[rnd.Intn(2)],
+		c := fnCase{ID: 1000000 + i, M: methods[rnd.Intn(len(methods))], F: []string{}, Sret: []string{"val", "err", "zero", "zeroerr"}[rnd.Intn(4)],
 			ArgSeed: rnd.Int63(), Pred: "-"}
 		if rnd.Intn(12) == 0 {
 			c.NilRecv = true
